@@ -1,6 +1,7 @@
 """C08 — GeoBox built from a region covers it and is snapped as requested."""
 from __future__ import annotations
 
+import math
 from fractions import Fraction as F
 
 from .common import Run, bool_s, frac_s, guarded, list_s, opt_s, run_driver
@@ -211,6 +212,264 @@ def shape_oracle(R: Run, gb, bb, shape, snap, slack_rel: F, case, prefix: str):
             q = (o - op * abs(res)) / abs(res)
             R.oracle(abs(q - round(q)) * abs(res) <= sl, f"{prefix}-{nm}-not-aligned", case,
                      f"(origin - off*|res|)/|res| = {float(q)!r} is not an integer", sig="shape-aligned")
+
+
+# ------------------------------------------------------------------ numeric spelling, cross-CRS polygons, utm shortcuts
+SPELLINGS = ["f32", "f64", "0d32", "0d64", "i"]
+
+
+def spell(kind: str, v: float):
+    """the same VALUE spelled as another numeric type (v must be exactly representable in it)"""
+    import numpy as np
+    if kind == "f32":
+        return np.float32(v)
+    if kind == "f64":
+        return np.float64(v)
+    if kind == "0d32":
+        return np.asarray(v, dtype="float32")
+    if kind == "0d64":
+        return np.asarray(v, dtype="float64")
+    if kind == "i":
+        return int(v) if float(v).is_integer() else v
+    return v
+
+
+def f32v(v: float) -> float:
+    """nearest value representable in float32, as a python float (exactly representable as a double too)"""
+    import numpy as np
+    return float(np.float32(v))
+
+
+def sec_spelling(R: Run):
+    """every numeric argument of from_bbox / from_geopolygon / zoom_to spelled as python float, numpy float32 / float64
+    / 0-d arrays / ints: the result must be EXACTLY the result for the same values spelled as python floats (a float32
+    value is a double, so the expected answer is well defined).  A spelling may be rejected with an exception, it must
+    not silently change the grid."""
+    import numpy as np
+    GB, GeoBox, _norm_anchor, geom, resxy_, xy_ = _import()
+    from odc.geo.geom import BoundingBox
+    from odc.geo.types import Resolution
+    rng = R.rng
+
+    def show(g):
+        return gb_s(g)
+
+    for _ in range(R.pick(250, 2500)):
+        mag = rng.choice([0.0, 100.0, 5e5, 6e6, 1e7])
+        px = f32v(rng.choice([0.1, 0.25, 0.3, 1.0, 10.0, 30.0, 0.01, 2.5]))
+        sgx, sgy = rng.choice([1, -1]), rng.choice([1, -1])
+        rx, ry = sgx * px, sgy * f32v(rng.choice([px, 0.1, 0.3, 20.0]))
+        l = f32v(mag + rng.uniform(-50, 50))
+        b = f32v(mag * 1.2 + rng.uniform(-50, 50))
+        r = f32v(l + px * rng.randint(1, 400) + rng.uniform(0, 1) * px)
+        t = f32v(b + abs(ry) * rng.randint(1, 400) + rng.uniform(0, 1) * abs(ry))
+        if not (l < r and b < t):
+            continue
+        ax, ay = f32v(rng.choice([0.0, 0.5, 0.25, 0.1, 0.3])), f32v(rng.choice([0.0, 0.5, 0.7]))
+        tol = f32v(rng.choice([0.01, 1e-3, 0.25, 0.0]))
+        mode = rng.choice(["res", "res", "res-scalar", "shape", "int-shape", "poly", "zoom-res", "zoom-shape"])
+        tight = rng.random() < 0.15
+        anchor_kind = rng.choice(["xy", "num", "name"])
+        ny, nx = rng.randint(1, 300), rng.randint(1, 300)
+
+        def build(sp):
+            """sp: dict group -> spelling kind ('py' = python float)"""
+            c = lambda grp, v: spell(sp.get(grp, "py"), v) if sp.get(grp, "py") != "py" else v
+            if anchor_kind == "xy":
+                anchor = xy_(c("anchor", ax), c("anchor", ay))
+            elif anchor_kind == "num":
+                anchor = c("anchor", ax)
+            else:
+                anchor = "center"
+            box = tuple(c("bbox", v) for v in (l, b, r, t))
+            kw = dict(anchor=anchor, tol=c("tol", tol), tight=tight)
+            bbox_arg = BoundingBox(*box, crs=CRS) if sp.get("bbox-as") == "BoundingBox" else box
+            crs_arg = None if sp.get("bbox-as") == "BoundingBox" else CRS
+            if mode == "res":
+                ctor = rng_ctor[0]
+                res = ctor(c("res", rx), c("res", ry))
+                return GeoBox.from_bbox(bbox_arg, crs_arg, resolution=res, **kw)
+            if mode == "res-scalar":
+                return GeoBox.from_bbox(bbox_arg, crs_arg, resolution=c("res", abs(rx)), **kw)
+            if mode == "shape":
+                shp = (c("shape", ny), c("shape", nx)) if sp.get("shape", "py") != "py" else (ny, nx)
+                return GeoBox.from_bbox(bbox_arg, crs_arg, shape=shp, **kw)
+            if mode == "int-shape":
+                return GeoBox.from_bbox(bbox_arg, crs_arg, shape=(c("shape", nx) if sp.get("shape", "py") != "py" else nx), **kw)
+            if mode == "poly":
+                poly = geom.polygon([(l, b), (r, b), (r, t), (l, b)], CRS)
+                return GeoBox.from_geopolygon(poly, resxy_(c("res", rx), c("res", ry)), **kw)
+            src = GeoBox.from_bbox((l, b, r, t), CRS, resolution=resxy_(rx, ry), tight=True)
+            if mode == "zoom-res":
+                return src.zoom_to(resolution=resxy_(c("res", rx * 2), c("res", ry * 2)))
+            return src.zoom_to((c("shape", ny), c("shape", nx)) if sp.get("shape", "py") != "py" else (ny, nx))
+
+        rng_ctor = [rng.choice([resxy_, lambda x, y: Resolution(x, y)])]
+        try:
+            base = show(build({}))
+        except Exception as ex:  # pylint: disable=broad-except
+            R.oracle(False, "from-bbox-raises", {"mode": mode, "args": repr((l, b, r, t, rx, ry, ax, ay, tol, ny, nx))}, repr(ex), sig="raises")
+            continue
+        groups = ["bbox", "res", "anchor", "tol", "shape"]
+        trials = []
+        for grp in groups:
+            for kind in SPELLINGS:
+                if kind == "i" and grp != "shape":
+                    continue
+                if grp == "shape" and kind in ("f32", "0d32", "0d64", "f64"):
+                    kind2 = {"f32": "i32", "f64": "i64", "0d32": "0di", "0d64": "f64"}[kind]
+                else:
+                    kind2 = kind
+                trials.append({grp: kind2})
+                if grp == "bbox":
+                    trials.append({grp: kind2, "bbox-as": "BoundingBox"})
+        trials.append({g_: "f32" for g_ in ("bbox", "res", "anchor", "tol")})
+        for sp in rng.sample(trials, R.pick(6, 12)):
+            # shape spellings are integers
+            sp2 = dict(sp)
+            if "shape" in sp2:
+                k_ = sp2["shape"]
+                sp2["shape"] = k_
+            case = {"fn": "GeoBox.from_bbox/from_geopolygon/zoom_to", "mode": mode, "spelling": sp, "tight": tight, "anchor_kind": anchor_kind,
+                    "values": repr({"bbox": (l, b, r, t), "res": (rx, ry), "anchor": (ax, ay), "tol": tol, "shape": (ny, nx)})}
+            try:
+                got = show(build(sp2))
+            except Exception:  # pylint: disable=broad-except
+                R.count("spelling:rejected|" + ",".join(f"{a}={b_}" for a, b_ in sp.items()))
+                continue
+            R.oracle(got == base, "result-depends-on-numeric-spelling", case,
+                     f"{mode}: with {sp} the result is {got} but the same values as python floats give {base}",
+                     sig="spelling|" + mode + "|" + ",".join(sorted(sp)))
+
+
+_spell_np = spell
+
+
+def spell(kind: str, v):  # noqa: F811  (adds the integer spellings used for shapes)
+    import numpy as np
+    if kind == "i32":
+        return np.int32(v)
+    if kind == "i64":
+        return np.int64(v)
+    if kind == "0di":
+        return np.asarray(v, dtype="int64")
+    return _spell_np(kind, v)
+
+
+def _transformer(src: str, dst: str):
+    import pyproj
+    key = (src, dst)
+    if key not in _TR:
+        _TR[key] = pyproj.Transformer.from_crs(pyproj.CRS.from_user_input(src), pyproj.CRS.from_user_input(dst), always_xy=True)
+    return _TR[key]
+
+
+_TR: dict = {}
+
+
+def sec_cross_crs(R: Run):
+    """from_geopolygon(poly, ..., crs=other): non-rectangular polygons (triangles, diagonal strips, L-shapes) and
+    non-separable projection pairs.  The vertices are projected independently (fresh pyproj transformer, float64);
+    the result must equal from_bbox of their envelope for the same options (two-sided), cover every projected vertex
+    up to tol and be less than a pixel (+tol) larger than the envelope per side."""
+    GB, GeoBox, _norm_anchor, geom, resxy_, xy_ = _import()
+    from odc.geo.geom import BoundingBox
+    rng = R.rng
+    pairs = [("epsg:4326", "epsg:32755", (147.0, -36.0), 1.0), ("epsg:4326", "epsg:3577", (133.0, -25.0), 10.0),
+             ("epsg:4326", "epsg:3857", (10.0, 55.0), 5.0), ("epsg:32755", "epsg:3577", (5e5, 6e6), 1e5),
+             ("epsg:3577", "epsg:4326", (0.0, -3e6), 5e5), ("epsg:4326", "epsg:32633", (15.0, 70.0), 2.0)]
+    for _ in range(R.pick(250, 2500)):
+        src, dst, (cx, cy), ext = rng.choice(pairs)
+        e = ext * 10 ** rng.uniform(-2, 0)
+        kind = rng.choice(["triangle", "strip", "L", "quad"])
+        x0, y0 = cx + rng.uniform(-ext, ext), cy + rng.uniform(-ext, ext)
+        if kind == "triangle":
+            pts = [(x0, y0), (x0 + e, y0 + rng.uniform(0, 0.3) * e), (x0 + rng.uniform(0, 0.3) * e, y0 + e)]
+        elif kind == "strip":
+            w = e * 0.02
+            pts = [(x0, y0), (x0 + w, y0), (x0 + e + w, y0 + e), (x0 + e, y0 + e)]
+        elif kind == "L":
+            pts = [(x0, y0), (x0 + e, y0), (x0 + e, y0 + 0.2 * e), (x0 + 0.2 * e, y0 + 0.2 * e), (x0 + 0.2 * e, y0 + e), (x0, y0 + e)]
+        else:
+            pts = [(x0, y0), (x0 + e, y0 + 0.1 * e), (x0 + 0.9 * e, y0 + e), (x0 - 0.1 * e, y0 + 0.8 * e)]
+        tr = _transformer(src, dst)
+        px_, py_ = tr.transform([p[0] for p in pts], [p[1] for p in pts])
+        if not all(map(lambda v: abs(v) < 1e12, list(px_) + list(py_))):
+            continue
+        env = (min(px_), min(py_), max(px_), max(py_))
+        span = max(env[2] - env[0], env[3] - env[1])
+        npx = rng.choice([3, 30, 300, 3000])
+        resv = span / npx
+        if dst != "epsg:4326":
+            resv = max(float(round(resv)), rng.choice([0.25, 1.0, 10.0]))
+        rxy = (resv, -resv) if rng.random() < 0.8 else (-resv, resv * 0.5)
+        anch = rng.choice([Anch("s", "default"), Anch("s", "center"), Anch("e", "floating"), Anch("n", F(0.25))])
+        tight = rng.random() < 0.15
+        tolf = rng.choice([0.01, 1e-3, 0.0, 0.25])
+        sn = anch.snap(tight)
+        kw = dict(anchor=anch.py(GB, xy_), tol=tolf, tight=tight)
+        case = {"fn": "GeoBox.from_geopolygon(crs=)", "src": src, "dst": dst, "pts": [list(p) for p in pts], "res": list(rxy),
+                "anchor": anch.tok(), "tol": tolf, "tight": tight}
+        try:
+            poly = geom.polygon(pts + [pts[0]], src)
+            g = GeoBox.from_geopolygon(poly, resxy_(*rxy), crs=dst, **kw)
+        except Exception as ex:  # pylint: disable=broad-except
+            R.oracle(False, "from-geopolygon-cross-crs-raises", case, repr(ex), sig="raises")
+            continue
+        want = guarded(lambda: gb_s(GeoBox.from_bbox(BoundingBox(*env, crs=dst), resolution=resxy_(*rxy), **kw)))
+        R.oracle(gb_s(g) == want and str(g.crs) == str(GeoBox.from_bbox(BoundingBox(*env, crs=dst), resolution=resxy_(*rxy), **kw).crs),
+                 "from-geopolygon-cross-crs-differs-from-projected-vertices", case,
+                 f"from_geopolygon(crs={dst}) = {gb_s(g)} but from_bbox of the envelope {env} of the independently projected vertices = {want}",
+                 sig=f"cross-crs-2sided|{kind}")
+        bbox_oracle(R, g, tuple(F(v) for v in env), (F(rxy[0]), F(rxy[1])), sn, F(tolf), F(1, 10**9), case, "from-geopolygon-cross-crs")
+
+
+def sec_utm_shortcut(R: Run):
+    """the crs='utm' / 'utm-n' / 'utm-s' shortcuts of from_bbox with a lon/lat tuple / list / CRS-less BoundingBox, fine
+    pixels (1 m .. 1 cm): the four lon/lat corners are projected independently in float64 (fresh pyproj transformer into
+    the CRS the result reports); two-sided against from_bbox of their envelope, plus the covering predicates"""
+    GB, GeoBox, _norm_anchor, geom, resxy_, xy_ = _import()
+    from odc.geo.geom import BoundingBox
+    rng = R.rng
+    for _ in range(R.pick(90, 900)):          # CRS.utm() lookups are slow (~70 ms)
+        lon, lat = rng.uniform(-179, 179), rng.uniform(-79, 83)
+        if rng.random() < 0.3:
+            lon, lat = rng.choice([(147.3, -36.7), (10.7, 59.9), (-122.4, 37.8), (31.2, -1.3)])
+            lon, lat = lon + rng.uniform(-0.5, 0.5), lat + rng.uniform(-0.5, 0.5)
+        resv = rng.choice([1.0, 0.25, 0.1, 0.01, 10.0, 30.0])
+        size_m = resv * rng.choice([10, 100, 1000, 5000])
+        dlat = size_m / 111000.0
+        dlon = dlat / max(0.2, abs(math.cos(math.radians(lat))))
+        box = (lon, lat, lon + dlon * rng.uniform(0.5, 1.5), lat + dlat * rng.uniform(0.5, 1.5))
+        crs_s = rng.choice(["utm", "utm", "UTM", "utm-n", "utm-s"])
+        how = rng.choice(["tuple", "list", "BoundingBox-nocrs"])
+        anch = rng.choice([Anch("s", "default"), Anch("s", "center"), Anch("e", "floating")])
+        tight = rng.random() < 0.15
+        tolf = rng.choice([0.01, 1e-3, 0.0])
+        kw = dict(resolution=resv, anchor=anch.py(GB, xy_), tol=tolf, tight=tight)
+        case = {"fn": "GeoBox.from_bbox(crs='utm*')", "bbox": list(box), "crs": crs_s, "bbox_as": how, "res": resv,
+                "anchor": anch.tok(), "tol": tolf, "tight": tight}
+        arg = box if how == "tuple" else list(box) if how == "list" else BoundingBox(*box, crs=None)
+        try:
+            g = GeoBox.from_bbox(arg, crs_s, **kw)
+        except Exception as ex:  # pylint: disable=broad-except
+            R.oracle(False, "from-bbox-utm-shortcut-raises", case, repr(ex), sig="raises")
+            continue
+        epsg = g.crs.epsg
+        north = epsg is not None and 32601 <= epsg <= 32660
+        south = epsg is not None and 32701 <= epsg <= 32760
+        ok_zone = (north or south) and not (crs_s == "utm-n" and south) and not (crs_s == "utm-s" and north)
+        R.oracle(ok_zone, "from-bbox-utm-shortcut-wrong-crs", case, f"result CRS {g.crs} (epsg {epsg}) for crs={crs_s!r}", sig="utm-crs")
+        if not (north or south):
+            continue
+        tr = _transformer("epsg:4326", f"epsg:{epsg}")
+        cx_, cy_ = tr.transform([box[0], box[0], box[2], box[2]], [box[1], box[3], box[1], box[3]])
+        env = (min(cx_), min(cy_), max(cx_), max(cy_))
+        want = guarded(lambda: gb_s(GeoBox.from_bbox(BoundingBox(*env, crs=f"epsg:{epsg}"), **kw)))
+        R.oracle(gb_s(g) == want, "from-bbox-utm-shortcut-differs-from-projected-corners", case,
+                 f"from_bbox(lonlat, crs={crs_s!r}) = {gb_s(g)} but from_bbox of the envelope {env} of the four corners projected "
+                 f"independently in float64 to epsg:{epsg} = {want}", sig=f"utm-2sided|{how}")
+        bbox_oracle(R, g, tuple(F(v) for v in env), (F(resv), F(-resv)), anch.snap(tight), F(tolf), F(1, 10**9), case, "from-bbox-utm-shortcut")
 
 
 def run(R: Run):
@@ -748,6 +1007,9 @@ def run(R: Run):
                 call(bbF, tight, (rng.randint(1, 5000), rng.randint(1, 5000)), None, anch, F(tolf), "float-shape", False, F(1, 10**9))
             else:
                 call(bbF, tight, rng.randint(1, 5000), None, anch, F(tolf), "float-int-shape", False, F(1, 10**9))
+    sec_spelling(R)
+    sec_cross_crs(R)
+    sec_utm_shortcut(R)
     R.exhaustive = False
 
 
